@@ -140,28 +140,23 @@ def run(chk):
         chk.ob('C07-K', '%s supplies SEGMENT and GROUP as CR' % fi.qualname, d == {'SEGMENT': '\r', 'GROUP': '\r'}, repr(d), fi.loc,
                key='C07-K|cr|%s' % fi.qualname)
 
-    # ---- T
-    thr = []
-    for fq in ('__init__.get_default_encoding_chars', 'core.Message._get_encoding_chars',
-               'core.Message._set_encoding_chars', 'parser._split_msh'):
+    # ---- T  (every version test of the four sites is a test against '2.7' that separates v >= 2.7 from v < 2.7)
+    SITES = ('__init__.get_default_encoding_chars', 'core.Message._get_encoding_chars',
+             'core.Message._set_encoding_chars', 'parser._split_msh')
+    for fq in SITES:
         fi = ix.func(fq)
-        for n in own_nodes(fi.node):
-            if isinstance(n, ast.Compare) and len(n.ops) == 1 and isinstance(n.comparators[0], ast.Constant) and \
-                    isinstance(n.comparators[0].value, str) and n.comparators[0].value[:2] == '2.':
-                thr.append((fq, type(n.ops[0]).__name__, n.comparators[0].value, n.lineno, fi))
-    have = {fq for fq, _, _, _, _ in thr}
-    for fq in ('__init__.get_default_encoding_chars', 'core.Message._get_encoding_chars',
-               'core.Message._set_encoding_chars', 'parser._split_msh'):
-        if fq not in have:
+        atoms = [n for n in own_nodes(fi.node) if isinstance(n, ast.Compare) and len(n.ops) == 1 and
+                 isinstance(n.comparators[0], ast.Constant) and isinstance(n.comparators[0].value, str) and
+                 n.comparators[0].value[:2] == '2.']
+        if not atoms:
             chk.fail('C07-T', '%s compares the version with >= 2.7' % fq,
                      'this site handles the fifth (truncation) character without any version test, its siblings test >= 2.7',
-                     ix.func(fq).loc, key='C07-T|%s' % fq)
-    kinds = {(o, v) for _, o, v, _, _ in thr}
-    for fq, o, v, ln, fi in thr:
-        ok = (o, v) == ('GtE', '2.7')
-        chk.ob('C07-T', '%s compares the version with >= 2.7' % fq, ok and len(kinds) == 1,
-               'uses %s %r while the siblings use %s' % (o, v, sorted(kinds)), '%s:%d' % (fi.module.relpath, ln),
-               key='C07-T|%s' % fq)
+                     fi.loc, key='C07-T|%s' % fq)
+            continue
+        bad = [n for n in atoms if not (n.comparators[0].value == '2.7' and isinstance(n.ops[0], (ast.GtE, ast.Lt)))]
+        chk.ob('C07-T', '%s compares the version with >= 2.7' % fq, not bad,
+               'uses `%s`: a different threshold / comparison than `>= \'2.7\'` (or its negation `< \'2.7\'`) used by the siblings' %
+               (norm(bad[0]) if bad else ''), '%s:%d' % (fi.module.relpath, atoms[0].lineno), key='C07-T|%s' % fq)
     consts = ix.module('consts')
     try:
         n4 = ce.eval(consts.assigns['N_SEPS'], consts)
@@ -171,18 +166,61 @@ def run(chk):
     chk.ob('C07-T', 'N_SEPS = 4 and N_SEPS_27 = 5 match the unpack / format arities', (n4, n5) == (4, 5), 'N_SEPS=%r N_SEPS_27=%r' % (n4, n5),
            '%s:1' % consts.relpath, key='C07-T|arity')
 
-    # ---- E
-    g = fguard[5]
-    ok = "'TRUNCATION' in encoding_chars" in g and ">= '2.7'" in g and g.endswith('[true]')
-    chk.ob('C07-E', 'setter writes 5 characters only for v>=2.7 with TRUNCATION supplied', ok, 'guard `%s`' % g, st.loc, key='C07-E|setter')
-    chk.ob('C07-E', 'setter writes 4 characters otherwise', fguard[4].endswith('[false]') and fguard[4][:-8] == g[:-7], 'guard `%s`' % fguard[4],
-           st.loc, key='C07-E|setter-else')
-    g = gguard.get(4, '')
-    ok = msh2 is not None and ('len(%s) == 5' % msh2) in g and ">= '2.7'" in g and g.endswith('[true]')
-    chk.ob('C07-E', 'getter reports TRUNCATION only for a 5-character MSH-2 of v>=2.7', ok, 'guard `%s`' % g, gt.loc, key='C07-E|getter')
-    g = unpack[5][1]
-    ok = 'len(seps) == N_SEPS_27' in g and ">= '2.7'" in g
-    chk.ob('C07-E', 'parser accepts 5 characters only for v>=2.7', ok, 'guard `%s`' % g, sp.loc, key='C07-E|parser')
+    # ---- E  (path conditions: where the fifth character is written / read / accepted)
+    from .. import pathcond
+    from ..cfg import cfg_of
+
+    def v27(t, pol):
+        return isinstance(t, ast.Compare) and len(t.ops) == 1 and isinstance(t.comparators[0], ast.Constant) and \
+            t.comparators[0].value == '2.7' and ((isinstance(t.ops[0], ast.GtE) and pol) or (isinstance(t.ops[0], ast.Lt) and not pol))
+
+    def has_trunc(t, pol):
+        return pol and isinstance(t, ast.Compare) and len(t.ops) == 1 and isinstance(t.ops[0], ast.In) and \
+            isinstance(t.left, ast.Constant) and t.left.value == 'TRUNCATION'
+
+    def len_is(var, ks):
+        def pred(t, pol):
+            if not (isinstance(t, ast.Compare) and len(t.ops) == 1):
+                return False
+            l_, r_ = norm(t.left), norm(t.comparators[0])
+            if 'len(%s)' % var not in (l_, r_):
+                return False
+            other = r_ if l_ == 'len(%s)' % var else l_
+            return other in ks and ((isinstance(t.ops[0], ast.Eq) and pol) or (isinstance(t.ops[0], ast.NotEq) and not pol))
+        return pred
+
+    def paths_to(fi_, node):
+        g_ = cfg_of(fi_)
+        nid = g_.node_for(node)
+        if nid is None:
+            raise AnalysisError('%s: no CFG node for `%s`' % (fi_.qualname, norm(node)[:40]))
+        return pathcond.conditions(g_, nid)
+    f5 = [n for n in own_nodes(st.node) if isinstance(n, (ast.JoinedStr, ast.BinOp, ast.Call)) and (fmt_roles(n) or []) == forms[5]]
+    f4 = [n for n in own_nodes(st.node) if isinstance(n, (ast.JoinedStr, ast.BinOp, ast.Call)) and (fmt_roles(n) or []) == forms[4]]
+    p5 = [p_ for n in f5 for p_ in paths_to(st, n)]
+    p4 = [p_ for n in f4 for p_ in paths_to(st, n)]
+    ok = pathcond.every_path_requires(p5, v27) and pathcond.every_path_requires(p5, has_trunc)
+    chk.ob('C07-E', 'setter writes 5 characters only for v>=2.7 with TRUNCATION supplied', ok,
+           'the 5-character MSH-2 is built on a path that does not establish both `version >= 2.7` and `\'TRUNCATION\' in encoding_chars`',
+           st.loc, key='C07-E|setter')
+    both = [conds for conds in p4 if any(pathcond.outcome_implies(t, o, v27) for t, o in conds) and
+            any(pathcond.outcome_implies(t, o, has_trunc) for t, o in conds)]
+    chk.ob('C07-E', 'setter writes 4 characters otherwise', bool(p4) and not both,
+           'the 4-character MSH-2 is (also) built where version >= 2.7 and TRUNCATION is supplied', st.loc, key='C07-E|setter-else')
+    treads = [n for n in own_nodes(gt.node) if isinstance(n, ast.Subscript) and isinstance(n.ctx, ast.Load) and msh2 is not None and
+              norm(n) == '%s[4]' % msh2]
+    pg = [p_ for n in treads for p_ in paths_to(gt, n)]
+    ok = pathcond.every_path_requires(pg, v27) and pathcond.every_path_requires(pg, len_is(msh2, ('5', 'N_SEPS_27')))
+    chk.ob('C07-E', 'getter reports TRUNCATION only for a 5-character MSH-2 of v>=2.7', ok,
+           'the fifth character is read on a path that does not establish both `version >= 2.7` and a 5-character MSH-2', gt.loc,
+           key='C07-E|getter')
+    u5 = [n for n in own_nodes(sp.node) if isinstance(n, ast.Assign) and isinstance(n.targets[0], ast.Tuple) and
+          len(n.targets[0].elts) == 5 and isinstance(n.value, ast.Name)]
+    pp = [p_ for n in u5 for p_ in paths_to(sp, n)]
+    ok = pathcond.every_path_requires(pp, v27) and pathcond.every_path_requires(pp, len_is(unpack_src[0] if unpack_src else 'seps', ('5', 'N_SEPS_27')))
+    chk.ob('C07-E', 'parser accepts 5 characters only for v>=2.7', ok,
+           'the 5-character unpacking is reached on a path that does not establish both `version >= 2.7` and a 5-character MSH-2',
+           sp.loc, key='C07-E|parser')
     upd = []
     for n in own_nodes(sp.node):
         if isinstance(n, ast.Assign) and len(n.targets) == 1 and isinstance(n.targets[0], ast.Subscript) and \
